@@ -107,6 +107,10 @@ class Listener(metaclass=ABCMeta):
 
     prev = None
 
+    def _backward(self, orb):
+        """True when the iteration runs against time (``orb`` is earlier than the previous sample)"""
+        return self.prev is not None and orb.date < self.prev.date
+
     def check(self, orb):
         """Method that check whether or not the listener is triggered
 
@@ -185,12 +189,11 @@ class LightListener(Listener):
         self.frame = frame
 
     def info(self, orb):
+        entry = (self(orb) <= 0) != self._backward(orb)
         if self.type == self.UMBRA:
-            return LightEvent(self, "Umbra entry" if self(orb) <= 0 else "Umbra exit")
+            return LightEvent(self, "Umbra entry" if entry else "Umbra exit")
         else:
-            return LightEvent(
-                self, "Penumbra entry" if self(orb) <= 0 else "Penumbra exit"
-            )
+            return LightEvent(self, "Penumbra entry" if entry else "Penumbra exit")
 
     def __call__(self, orb):
         """
@@ -338,9 +341,8 @@ class ApsideListener(Listener):
         self.frame = frame
 
     def info(self, orb):
-        return ApsideEvent(
-            self, "Periapsis" if self(orb) > self(self.prev) else "Apoapsis"
-        )
+        rising = (self(orb) > self(self.prev)) != self._backward(orb)
+        return ApsideEvent(self, "Periapsis" if rising else "Apoapsis")
 
     def __call__(self, orb):
         orb = orb.copy(form="spherical", frame=self.frame)
@@ -468,7 +470,8 @@ class StationMaskListener(StationSignalListener):
         self.station = station
 
     def info(self, orb):
-        return self.event(self, "AOS" if self(orb) > self(self.prev) else "LOS")
+        rising = (self(orb) > self(self.prev)) != self._backward(orb)
+        return self.event(self, "AOS" if rising else "LOS")
 
     def check(self, orb):
         # Override to disable the computation when the object is not
